@@ -12,7 +12,7 @@ import traceback
 from concurrent.futures import ProcessPoolExecutor, as_completed
 import multiprocessing
 
-from simkit.core import H
+from simkit.core import H, Result, Deadlock
 from simkit import ddmin
 
 VERIF = os.path.dirname(os.path.dirname(os.path.abspath(__file__)))
@@ -32,7 +32,14 @@ def seed_for(batch_seed: int, prop: str, i: int) -> int:
 
 def _execute(mod, script):
     """Run one script; classify exceptions: raised by the harness → harness error."""
-    res = mod.execute(script)
+    try:
+        res = mod.execute(script)
+    except Deadlock as e:
+        # raised by the stand-in for threading.Lock: code under test acquired a lock that is held and that nobody can
+        # release any more (every handler of a node runs to completion on one thread) - the real thread blocks for good
+        res = Result()
+        res.violate(mod.PROP, '%s/thread-blocks-forever' % mod.PROP, 'Deadlock: %s' % e)
+        res.digest = 'deadlock'
     return res.as_dict() if hasattr(res, 'as_dict') else res
 
 
